@@ -265,6 +265,73 @@ def rare_signatures(ctx, rng):
                               {"dir": "A-rare", "alg": alg, "token": o.value})
 
 
+def one_key_object_several_algorithms(ctx, rng):
+    """one key object serving several algorithms one after another (an oct key for HS256 / HS384 / HS512, an RSA key for RS* and PS*), in every order: each
+    token is the RFC's for its own algorithm - read by the reference, and the reference's tokens read with the same object"""
+    import itertools
+    j = J.load()
+    payload = b"c07 one key object"
+    fams = [("oct", gen.new_oct(512), ["HS256", "HS384", "HS512"]), ("RSA", gen.new_rsa(2048), ["RS256", "PS256", "RS384", "PS512", "PS384", "RS512"])]
+    for kty, jwk, algs in fams:
+        rk = RefKey.from_jwk(jwk)
+        rpub = RefKey.from_jwk(gen.public_jwk(jwk)) if kty != "oct" else rk
+        orders = list(itertools.permutations(algs, 3))
+        for order in orders[:: max(1, len(orders) // 24)]:
+            priv = j.key(jwk)                                   # one object for the whole order
+            pub = j.key(gen.public_jwk(jwk)) if kty != "oct" else priv
+            for a in order + order:
+                ctx.ev()
+                o = call(j.jws.serialize_compact, {"alg": a}, payload, priv, algorithms=[a])
+                ctx.count("a_checked")
+                ctx.count("one_key_object_cases")
+                ctx.nontrivial(("one-object", kty, a, order))
+                ctx.cell("A-one-object", kty, a)
+                case = {"one_key_object": True, "alg": a, "order": list(order), "keys": [jwk]}
+                if not o.ok:
+                    ctx.violation(f"produce-fails:{o.key}", f"{a} with a key object used for {order} before: {o.exc!r}", case)
+                    continue
+                r = rjws.verify_compact(o.value, rpub)
+                if r.verdict != "ACCEPT" or r.payload != payload:
+                    ctx.violation(f"ref-rejects:{r.klass}:{a}:key-object-used-for-other-algorithms", f"{a} token signed with a key object that had served {list(order)}: reference says "
+                                  f"{r.reason} (signature of {len(b64u_dec(o.value.split('.')[2]))} octets)", {**case, "token": o.value})
+                t = rjws.compact({"alg": a}, payload, rk)
+                v = call(j.jws.deserialize_compact, t, pub, algorithms=[a])
+                ctx.count("b_checked")
+                if not v.ok or v.value.payload != payload:
+                    ctx.violation(f"joserfc-rejects-foreign:{a}:key-object-used-for-other-algorithms", f"reference-signed {a} token refused by a key object that had served "
+                                  f"{list(order)}: {v.exc!r}", {**case, "token": t})
+
+
+def pss_foreign_salt_lengths(ctx, rng):
+    """RSASSA-PSS "uses MGF1 with the same hash and a salt of hash length": a signature made with another salt length (0, 20, hLen - 1, hLen + 1, the
+    maximum) is not a PS256 / PS384 / PS512 signature, whatever a lenient verifier could recover from the encoded message"""
+    from Crypto.Signature import pss
+    from Crypto.Hash import SHA256, SHA384, SHA512
+    j = J.load()
+    jwk = gen.new_rsa(2048)
+    rk = RefKey.from_jwk(jwk)
+    pub = j.key(gen.public_jwk(jwk))
+    payload = b"c07 pss salt"
+    for a, H in (("PS256", SHA256), ("PS384", SHA384), ("PS512", SHA512)):
+        hl = H.digest_size
+        p64 = b64u_enc(json.dumps({"alg": a}, separators=(",", ":")).encode())
+        msg = (p64 + "." + b64u_enc(payload)).encode()
+        for sl in (0, 1, 20, hl - 1, hl, hl + 1, 2 * hl, 256 - hl - 2):
+            ctx.ev()
+            sig = pss.new(rk.pcd_rsa(), salt_bytes=sl).sign(H.new(msg))
+            tok = f"{p64}.{b64u_enc(payload)}.{b64u_enc(sig)}"
+            o = call(j.jws.deserialize_compact, tok, pub, algorithms=[a])
+            ctx.count("b_checked")
+            ctx.count("pss_salt_length_cases")
+            ctx.nontrivial(("pss-salt", a, sl))
+            ctx.cell("B-pss-salt", a, "hLen" if sl == hl else "other", "accepted" if o.ok else "refused")
+            case = {"pss_salt": True, "alg": a, "salt_octets": sl, "token": tok, "keys": [gen.public_jwk(jwk)]}
+            if sl == hl and not o.ok:
+                ctx.violation(f"joserfc-rejects-foreign:{a}:salt-of-hash-length", f"{a} signature with a {sl}-octet salt refused: {o.exc!r}", case)
+            if sl != hl and o.ok:
+                ctx.violation(f"accepts-non-rfc-signature:{a}:pss-salt-length", f"{a} signature made with a salt of {sl} octets (hash length {hl}) verified", case)
+
+
 def unusual_rsa_keys(ctx, rng):
     """RSA keys as other implementations make them (2047- and 2049-bit moduli, e = 3 / 17 / 2^32+1): both directions, RS* and PS*"""
     from ..keystrata import UNUSUAL_RSA
@@ -352,6 +419,10 @@ def run_shard(ctx):
         unusual_rsa_keys(ctx, rng)
     if ctx.shard == 8:
         non_finite_header_values(ctx, rng)
+    if ctx.shard == 9:
+        one_key_object_several_algorithms(ctx, rng)
+    if ctx.shard == 10:
+        pss_foreign_salt_lengths(ctx, rng)
     # B: forced grid alg x form x style (round-robin over shards), payload rotating
     forms = ["compact", "flat", "general2", "c7797", "j7797"]
     k = 0
@@ -396,6 +467,10 @@ def replay(ctx, case):
     J.load()
     if case.get("non_finite_header_values"):
         non_finite_header_values(ctx, ctx.rng)
+    elif case.get("one_key_object"):
+        one_key_object_several_algorithms(ctx, ctx.rng)
+    elif case.get("pss_salt"):
+        pss_foreign_salt_lengths(ctx, ctx.rng)
     elif case.get("dir") == "B":
         for _ in range(5):
             direction_b(ctx, case["alg"], case["form"], case["style"], B_PAYLOADS[2], ctx.rng)
